@@ -1408,4 +1408,68 @@ example : (obsOf (multi [exT0, exT1] [0, 1, 0, 1, 0, 0, 1, 0])[1]?).map (fun b =
     some (run idOrd { exCfg with q0 := true } .smtp [1]).final.cr.done := by decide
 example : todoOf (multi [exT0, exT1] [0, 1, 0])[0]? = some ([(1, false)], [3, 2]) := by decide
 
+/-! ## Round 9: DMARC policy discovery (`discover`) - what decides the `Dmarc` parameter -/
+
+/-- What is published at a `_dmarc` name besides DMARC records does not matter: two answers with
+the same DMARC records give the same outcome, at the From domain ... -/
+theorem C06_dmarc_discovery_ignores_other_txt_at_from (w : World) (l l' : List Txt)
+    (h : dmarcRecords l = dmarcRecords l') :
+    discover { w with atFrom := .recs l } = discover { w with atFrom := .recs l' } := by
+  cases hf : w.fromIsOrg <;> simp [discover, fetchRecord, World.first, lookupPolicies, h]
+
+/-- ... and at the organizational domain. -/
+theorem C06_dmarc_discovery_ignores_other_txt_at_org (w : World) (l l' : List Txt)
+    (h : dmarcRecords l = dmarcRecords l') :
+    discover { w with atOrg := .recs l } = discover { w with atOrg := .recs l' } := by
+  cases hf : w.fromIsOrg <;> simp [discover, fetchRecord, World.first, lookupPolicies, h]
+
+/-- A name that does not exist and a name with records none of which is a DMARC record are the same
+to the discovery. -/
+theorem C06_dmarc_no_record_is_no_name (w : World) (l : List Txt) (h : dmarcRecords l = []) :
+    discover { w with atFrom := .recs l } = discover { w with atFrom := .nx } := by
+  cases hf : w.fromIsOrg <;> simp [discover, fetchRecord, World.first, lookupPolicies, h]
+
+/-- The policy of the organizational domain applies to a subdomain without a DMARC record of its
+own - whatever else its `_dmarc` name answers with (nothing, no such name, a wildcard TXT record,
+an SPF record): a message that is not aligned gets `sp` if the record has one, else `p`. -/
+theorem C06_dmarc_org_policy_applies (w : World) (p : Pol) (sp : Option Pol) (lo : List Txt)
+    (hsub : w.fromIsOrg = false)
+    (hfrom : w.atFrom = .nx ∨ ∃ l, w.atFrom = .recs l ∧ dmarcRecords l = [])
+    (horg : w.atOrg = .recs lo) (hone : dmarcRecords lo = [(p, sp)]) (hal : w.aligned = false) :
+    discover w = (sp.getD p).toDmarc := by
+  rcases hfrom with hfrom | ⟨l, hfrom, hl⟩ <;>
+    cases sp <;> simp [discover, fetchRecord, World.first, lookupPolicies, *]
+
+/-- The enforcement theorems compose with the discovery: a failing message of a subdomain whose
+organizational domain publishes quarantine is flagged before every target (instance of
+`C06_quarantine_flags_every_target` with `cfg.dmarc = discover w`). -/
+theorem C06_dmarc_discovered_quarantine_flags (o : Ord) (ho : o.fair) (cfg : Cfg) (m : Mode) (rs : List Rcpt)
+    (w : World) (hd : cfg.dmarc = discover w) (hq : discover w = .quar) :
+    ∀ b, (run o cfg m rs).body = some b → b.refused = none →
+      (run o cfg m rs).final.metaQ = true ∧
+      (∀ x ∈ handedOver m (run o cfg m rs), x.2.2 = true ∧ (cfg.tgt x.1).refuseQ = false) := by
+  intro b hb hn
+  have h := C06_quarantine_flags_every_target o ho cfg m rs b hb hn (Or.inr (Or.inl (hd.trans hq)))
+  exact ⟨h.1, h.2.2⟩
+
+/-- Non-vacuity and the cases of the discovery: the seeded scenario (subdomain answering with an
+SPF record, organizational domain publishing reject / quarantine with and without `sp`), several
+records, temporary failures at either name (the second one only when it is asked), alignment. -/
+example : discover ⟨false, .recs [.stray], .recs [.policy .reject none], false⟩ = .rej := by decide
+example : discover ⟨false, .recs [.stray, .stray], .recs [.stray, .policy .quarantine none], false⟩ = .quar := by decide
+example : discover ⟨false, .nx, .recs [.policy .reject (some .quarantine)], false⟩ = .quar := by decide
+example : discover ⟨false, .recs [], .recs [.policy .nothing (some .reject)], false⟩ = .rej := by decide
+example : discover ⟨false, .recs [.policy .quarantine (some .reject)], .recs [.policy .reject none], false⟩ = .quar := by decide
+example : discover ⟨false, .recs [.policy .quarantine none, .policy .reject none], .recs [.policy .reject none], false⟩ = .pass := by decide
+example : discover ⟨false, .recs [.stray], .recs [.policy .reject none, .policy .reject none], false⟩ = .pass := by decide
+example : discover ⟨false, .temp, .recs [.policy .nothing none], true⟩ = .rej := by decide
+example : discover ⟨false, .recs [.policy .nothing none], .temp, false⟩ = .pass := by decide
+example : discover ⟨false, .recs [.stray], .temp, false⟩ = .rej := by decide
+example : discover ⟨true, .nx, .recs [.policy .reject (some .nothing)], false⟩ = .rej := by decide
+example : discover ⟨false, .nx, .recs [.policy .reject none], true⟩ = .pass := by decide
+example : ∃ (w : World) (p : Pol) (sp : Option Pol) (lo : List Txt), w.fromIsOrg = false ∧ (w.atFrom = .nx ∨ ∃ l, w.atFrom = .recs l ∧ dmarcRecords l = []) ∧
+    w.atOrg = .recs lo ∧ dmarcRecords lo = [(p, sp)] ∧ w.aligned = false :=
+  ⟨⟨false, .recs [.stray], .recs [.stray, .policy .reject none], false⟩, .reject, none, _, rfl,
+    Or.inr ⟨_, rfl, rfl⟩, rfl, rfl, rfl⟩
+
 end MaddyVerif.C06
